@@ -9,9 +9,10 @@
 (*   JetKnown(name)          the jet is specified here                     *)
 (*   JetOut(name, in)        its output bits, or JetFails                  *)
 (* Names are the crate's: <op>_<n> and <op>_<a>_<b> for word sizes up to   *)
-(* 64 (eq also 256), plus verify, plus the SHA-256, hash-context and lock   *)
-(* parsing jets (Sha256.tla): 325 of the 368 Core jets.  Word arithmetic   *)
-(* is on bit sequences (TLC's integers are 32 bits).                       *)
+(* 64 (eq also 256), plus verify, the SHA-256, hash-context and lock        *)
+(* parsing jets (Sha256.tla) and the secp256k1 jets (Secp.tla): all 368    *)
+(* Core jets.  Word arithmetic is on bit sequences (TLC's integers are 32  *)
+(* bits); field arithmetic on 8-bit limbs.                                 *)
 (***************************************************************************)
 EXTENDS Integers, Sequences, TLC
 
@@ -239,12 +240,75 @@ GejB(p) == FB(p.x) \o FB(p.y) \o FB(p.z)
 Inf(p) == p.z = EC!Zero
 GeOnCurve(px, py) == FM(py, py) = EC!FAdd(Cube(px), Seven)
 GejOnCurve(p) == LET z2 == FM(p.z, p.z) IN FM(p.y, p.y) = EC!FAdd(Cube(p.x), FM(Seven, Cube(z2)))      \* y^2 = x^3 + 7 z^6
-FieldOps == {"fe_normalize", "fe_negate", "fe_add", "fe_square", "fe_multiply", "fe_multiply_beta", "fe_square_root", "fe_is_zero", "fe_is_odd",
+(* the group law in Jacobian coordinates (the specification's own formulas) *)
+PDouble(p) ==
+  IF Inf(p) \/ p.y = EC!Zero THEN [x |-> EC!Zero, y |-> EC!Zero, z |-> EC!Zero]
+  ELSE LET y2 == FM(p.y, p.y)
+           s == FM(EC!Small(4), FM(p.x, y2))
+           m == FM(EC!Small(3), FM(p.x, p.x))
+           x3 == EC!FSub(FM(m, m), FM(EC!Small(2), s))
+       IN [x |-> x3, y |-> EC!FSub(FM(m, EC!FSub(s, x3)), FM(EC!Small(8), FM(y2, y2))), z |-> FM(EC!Small(2), FM(p.y, p.z))]
+PAdd(a, b) ==
+  IF Inf(a) THEN b ELSE IF Inf(b) THEN a
+  ELSE LET z1z1 == FM(a.z, a.z)
+           z2z2 == FM(b.z, b.z)
+           u1 == FM(a.x, z2z2)
+           u2 == FM(b.x, z1z1)
+           s1 == FM(a.y, FM(b.z, z2z2))
+           s2 == FM(b.y, FM(a.z, z1z1))
+       IN IF u1 = u2 THEN (IF s1 = s2 THEN PDouble(a) ELSE [x |-> EC!Zero, y |-> EC!Zero, z |-> EC!Zero])
+          ELSE LET h == EC!FSub(u2, u1)
+                   r == EC!FSub(s2, s1)
+                   h2 == FM(h, h)
+                   h3 == FM(h, h2)
+                   v == FM(u1, h2)
+                   x3 == EC!FSub(EC!FSub(FM(r, r), h3), FM(EC!Small(2), v))
+               IN [x |-> x3, y |-> EC!FSub(FM(r, EC!FSub(v, x3)), FM(s1, h3)), z |-> FM(h, FM(a.z, b.z))]
+SamePoint(a, b) ==
+  IF Inf(a) \/ Inf(b) THEN Inf(a) /\ Inf(b)
+  ELSE /\ FM(a.x, FM(b.z, b.z)) = FM(b.x, FM(a.z, a.z))
+       /\ FM(a.y, Cube(b.z)) = FM(b.y, Cube(a.z))
+Valid(p) == Inf(p) \/ GejOnCurve(p)
+Affine(x, i) == [x |-> Fe(x, i), y |-> Fe(x, i + 1), z |-> EC!Small(1)]
+GPoint == [x |-> EC!HexL("79be667ef9dcbbac55a06295ce870b07029bfcdb2dce28d959f2815b16f81798"),
+           y |-> EC!HexL("483ada7726a3c4655da4fbfc0e1108a8fd17b448a68554199c47d08ffb10d4b8"), z |-> EC!Small(1)]
+InfPoint == [x |-> EC!Zero, y |-> EC!Zero, z |-> EC!Zero]
+IsCanonP(bits) == ~EC!Ge(EC!FromBits(bits), EC!P)
+(* the Shallue - van de Woestijne map of libsecp256k1-zkp's generator module (Fouque, Tibouchi): t to a point of the curve,
+   with y negated when t is odd; c = sqrt(-3) and d = (c - 1) / 2 are the constants of the C code, checked below *)
+NegC == EC!HexL("f5d2d456caf80e20dcc88f3d586869d339e092ea25eb132b8272d850e32a03dd")
+SvdwD == EC!HexL("851695d49a83f8ef919bb86153cbcb16630fb68aed0a766a3ec693d68e6afa40")
+Svdw(t) ==
+  LET t2 == FM(t, t)
+      x3d == EC!FNeg(FM(EC!Small(3), t2))
+      wd == EC!FAdd(t2, EC!Small(8))                       \* 1 + b + t^2
+      jinv == EC!FInv(FM(wd, x3d))                         \* the inverse of zero is zero (t = 0)
+      x1 == EC!FAdd(FM(FM(FM(NegC, t2), x3d), jinv), SvdwD)
+      x2 == EC!FNeg(EC!FAdd(x1, EC!One))
+      x3 == EC!FAdd(FM(Cube(wd), jinv), EC!One)
+      rhs(x) == EC!FAdd(Cube(x), Seven)
+      r1 == EC!FSqrt(rhs(x1))
+      r2 == EC!FSqrt(rhs(x2))
+      pick == IF r1 # <<>> THEN <<x1, r1[1]>>
+              ELSE IF r2 # <<>> THEN <<x2, r2[1]>>
+              ELSE <<x3, EC!PowF(rhs(x3), EC!SqrtExp, 1, EC!One)>>
+  IN [x |-> pick[1], y |-> (IF Odd(t) THEN EC!FNeg(pick[2]) ELSE pick[2]), z |-> EC!One]
+(* hash_to_curve: the sum of the images of two tagged hashes of the key; fails when a hash is not a reduced field element *)
+HashToCurve(keyb) ==
+  LET h1 == SHA!Sha256(SHA!HexBits("3173742067656e65726174696f6e3a20") \o keyb)        \* "1st generation: "
+      h2 == SHA!Sha256(SHA!HexBits("326e642067656e65726174696f6e3a20") \o keyb)        \* "2nd generation: "
+  IN IF ~IsCanonP(h1) \/ ~IsCanonP(h2) THEN JetFails
+     ELSE LET q == PAdd(Svdw(EC!FromBits(h1)), Svdw(EC!FromBits(h2)))
+          IN IF Inf(q) THEN ZerosN(512)
+             ELSE LET zi == EC!FInv(q.z) IN FB(FM(q.x, FM(zi, zi))) \o FB(FM(q.y, Cube(zi)))
+FieldOps == {"swu", "hash_to_curve", "fe_normalize", "fe_negate", "fe_add", "fe_square", "fe_multiply", "fe_multiply_beta", "fe_square_root", "fe_is_zero", "fe_is_odd",
              "scalar_normalize", "scalar_negate", "scalar_add", "scalar_square", "scalar_multiply", "scalar_multiply_lambda", "scalar_is_zero",
              "div_mod_128_64", "ge_negate", "gej_negate", "ge_is_on_curve", "gej_is_on_curve", "gej_is_infinity", "gej_infinity", "gej_rescale",
              "gej_x_equiv", "gej_y_is_odd", "gej_equiv", "gej_ge_equiv", "decompress"}
 FieldOut(name, x) ==
-  CASE name = "fe_normalize" -> FB(Fe(x, 1))
+  CASE name = "swu" -> LET p == Svdw(Fe(x, 1)) IN FB(p.x) \o FB(p.y)
+    [] name = "hash_to_curve" -> HashToCurve(x)
+    [] name = "fe_normalize" -> FB(Fe(x, 1))
     [] name = "fe_negate" -> FB(EC!FNeg(Fe(x, 1)))
     [] name = "fe_add" -> FB(EC!FAdd(Fe(x, 1), Fe(x, 2)))
     [] name = "fe_square" -> FB(FM(Fe(x, 1), Fe(x, 1)))
@@ -292,44 +356,11 @@ FieldOut(name, x) ==
             ELSE <<1>> \o FB(px) \o FB(IF Odd(r[1]) = (x[1] = 1) THEN r[1] ELSE EC!FNeg(r[1]))
 (* jets specified by a relation between input and output: inverses (unique, so the relation decides the function),
    normalisation (unique), and the group law, whose Jacobian result is only determined up to the representative *)
-PDouble(p) ==
-  IF Inf(p) \/ p.y = EC!Zero THEN [x |-> EC!Zero, y |-> EC!Zero, z |-> EC!Zero]
-  ELSE LET y2 == FM(p.y, p.y)
-           s == FM(EC!Small(4), FM(p.x, y2))
-           m == FM(EC!Small(3), FM(p.x, p.x))
-           x3 == EC!FSub(FM(m, m), FM(EC!Small(2), s))
-       IN [x |-> x3, y |-> EC!FSub(FM(m, EC!FSub(s, x3)), FM(EC!Small(8), FM(y2, y2))), z |-> FM(EC!Small(2), FM(p.y, p.z))]
-PAdd(a, b) ==
-  IF Inf(a) THEN b ELSE IF Inf(b) THEN a
-  ELSE LET z1z1 == FM(a.z, a.z)
-           z2z2 == FM(b.z, b.z)
-           u1 == FM(a.x, z2z2)
-           u2 == FM(b.x, z1z1)
-           s1 == FM(a.y, FM(b.z, z2z2))
-           s2 == FM(b.y, FM(a.z, z1z1))
-       IN IF u1 = u2 THEN (IF s1 = s2 THEN PDouble(a) ELSE [x |-> EC!Zero, y |-> EC!Zero, z |-> EC!Zero])
-          ELSE LET h == EC!FSub(u2, u1)
-                   r == EC!FSub(s2, s1)
-                   h2 == FM(h, h)
-                   h3 == FM(h, h2)
-                   v == FM(u1, h2)
-                   x3 == EC!FSub(EC!FSub(FM(r, r), h3), FM(EC!Small(2), v))
-               IN [x |-> x3, y |-> EC!FSub(FM(r, EC!FSub(v, x3)), FM(s1, h3)), z |-> FM(h, FM(a.z, b.z))]
-SamePoint(a, b) ==
-  IF Inf(a) \/ Inf(b) THEN Inf(a) /\ Inf(b)
-  ELSE /\ FM(a.x, FM(b.z, b.z)) = FM(b.x, FM(a.z, a.z))
-       /\ FM(a.y, Cube(b.z)) = FM(b.y, Cube(a.z))
-Valid(p) == Inf(p) \/ GejOnCurve(p)
-Affine(x, i) == [x |-> Fe(x, i), y |-> Fe(x, i + 1), z |-> EC!Small(1)]
-GPoint == [x |-> EC!HexL("79be667ef9dcbbac55a06295ce870b07029bfcdb2dce28d959f2815b16f81798"),
-           y |-> EC!HexL("483ada7726a3c4655da4fbfc0e1108a8fd17b448a68554199c47d08ffb10d4b8"), z |-> EC!Small(1)]
-InfPoint == [x |-> EC!Zero, y |-> EC!Zero, z |-> EC!Zero]
 RECURSIVE SMulFrom(_, _, _, _)
 SMulFrom(k, p, i, acc) ==        \* double and add over the bits of k from the i-th; leading zero bits cost nothing
   IF i > Len(k) THEN acc
   ELSE LET d == IF Inf(acc) THEN acc ELSE PDouble(acc) IN SMulFrom(k, p, i + 1, IF k[i] = 1 THEN PAdd(d, p) ELSE d)
 ScalarMul(k, p) == SMulFrom(FB(k), p, 1, InfPoint)
-IsCanonP(bits) == ~EC!Ge(EC!FromBits(bits), EC!P)
 (* compressed points: the point with that x (reduced) and a y of the given parity, if x^3 + 7 is a square *)
 LiftX(xb, odd) ==           \* <<point>> or <<>>
   LET px == EC!FRed(EC!FromBits(xb))
